@@ -26,6 +26,13 @@ CLAIMED = {
         "Trusted: reference framer/deframer and reassembler in harness/refcodec (written from IEEE 1815), the simulated phys seam (H2). transport::real is only compiled in non-test builds, so it runs here through the shadow manifest.",
         "DESIGN.md section 6 C08",
     ),
+    "C04": (
+        "S-OUT",
+        "deterministic simulation: seeded search over request histories, virtual-time advances around the select timeout, retransmissions, reconnects/pre-emption and handler answers against the real outstation task; oracle = the property's predicate evaluated on the harness' own record of the history",
+        "Seeded exploration (not exhaustive) of SELECT/OPERATE histories against the real OutstationTask run by the real ServerTask over simulated connections in virtual time: between the two steps the generator places READs, CONFIRMs, malformed/unknown/broadcast/foreign-master fragments, exact retransmissions, time advances to select_timeout-1/0/+1 ms, disconnects, pre-empting connections and disable/enable; the oracle evaluates the property's predicate on its own history record and demands zero actuations and non-success echoes when it is false, exactly one actuation per object with the handler's statuses when a fresh SELECT is directly followed by its OPERATE. Right level: the property is about histories and timing, which cannot be enumerated but are sampled densely (30k histories/s).",
+        "Trusted: reference request builder/response decoder (harness/refcodec/app.rs), the simulated phys seam (H2), tokio's paused clock. Relaxations (DESIGN section 6 C04): outcome is don't-care when only retransmissions of the SELECT intervene, when the SELECT itself is a retransmission, and at elapsed == select timeout exactly; echoed statuses of a retransmitted OPERATE are not checked (answered from memory, C05).",
+        "DESIGN.md section 6 C04",
+    ),
 }
 
 PENDING_REASON = "check not built yet in this tree (work in progress, see DESIGN.md section 11); not claimed until its oracle has passed determinism and sensitivity validation"
@@ -72,6 +79,7 @@ def main():
         },
         "engines": [
             {"name": "S-LINK", "path": "harness/props/c06.rs", "serves_properties": ["C06"], "kind_free_text": "real link reader/parser/formatter over a simulated physical layer; seeded streams, faults and read plans"},
+            {"name": "S-OUT", "path": "harness/sout.rs", "serves_properties": ["C04"], "kind_free_text": "real OutstationTask (session, database, event buffer, real transport/link) run by the real ServerTask over simulated connections; scripted master peer using the reference codec; recording stubs for user callbacks; user transactions injected at database lock points (H4)"},
             {"name": "S-TRANS", "path": "harness/props/c08.rs", "serves_properties": ["C08"], "kind_free_text": "two real transport writers -> frame-level fault stage -> real transport reader (link layer + assembler) over simulated phys"},
         ],
         "checks": checks,
